@@ -329,6 +329,13 @@ def run_case(case: Any) -> dict[str, Any]:
         variants.append({"fault": {**f, "exc": rng.choice(ORDINARY_EXC_KINDS + ["Group", "Group1", "StartError"])}, "timeout": rng.choice([None, 1e6])})
     for t in e2.timeout_positions(tree):
         variants.append({"timeout": t})
+    # no timeout at all (timeout=None) and a start-up that takes longer than any default: it finishes, unaffected
+    slow = copy.deepcopy(tree)
+    root = slow["nodes"][""]
+    phase = "start" if root["has_start"] else ("prepare" if root["has_prepare"] else None)
+    if phase is not None:
+        root[phase].insert(0, ["sleep", 30.0])
+        variants.append({"timeout": None, "tree": slow})
     if case.get("only") is not None:
         variants = [variants[i] for i in case["only"]]
     sample = None
